@@ -80,6 +80,8 @@ class Evaluator:
             if node.id in ("tuple", "list", "str", "int", "dict", "bool", "set"):
                 return {"tuple": tuple, "list": list, "str": str, "int": int, "dict": dict, "bool": bool, "set": set}[node.id]
             raise Unsupported("name %s" % node.id)
+        if isinstance(node, ast.Lambda):
+            return self._closure(node, env)
         if isinstance(node, ast.BoolOp):
             if isinstance(node.op, ast.And):
                 v = True
@@ -196,6 +198,10 @@ class Evaluator:
             v = self.ev(node.value, env)
             if isinstance(v, Obj):
                 return v.get(self, node.attr)
+            if isinstance(v, list) and node.attr in LIST_METHODS:
+                return getattr(v, node.attr)         # `append = items.append`
+            if isinstance(v, str) and node.attr in STR_METHODS:
+                return getattr(v, node.attr)
             raise Unsupported("attribute %s" % node.attr)
         raise Unsupported(type(node).__name__)
 
@@ -229,7 +235,7 @@ class Evaluator:
                 if name == "isinstance":
                     t = args[1]
                     ts = t if isinstance(t, tuple) else (t,)
-                    if all(x in (tuple, list, str, int, dict, bool, set) for x in ts):
+                    if all(x in (tuple, list, str, int, dict, bool, set) or (isinstance(x, type) and x in self.g.values()) for x in ts):
                         return isinstance(args[0], ts)
                     raise Unsupported("isinstance on a non-builtin type")
                 return {"min": min, "max": max, "range": range, "str": str, "bool": bool, "tuple": tuple, "list": list,
@@ -293,6 +299,25 @@ class Evaluator:
             return r.value
         return None
 
+    def _closure(self, funcdef, outer):
+        def call(*args, **kwargs):
+            env = dict(outer)
+            params = [a.arg for a in funcdef.args.posonlyargs + funcdef.args.args]
+            defaults = funcdef.args.defaults
+            for p, d in zip(params[len(params) - len(defaults):], defaults):
+                env[p] = self.ev(d, outer)
+            for p, a in zip(params, args):
+                env[p] = a
+            env.update(kwargs)
+            if isinstance(funcdef, ast.Lambda):
+                return self.ev(funcdef.body, env)
+            try:
+                self.block(funcdef.body, env)
+            except _Return as r:
+                return r.value
+            return None
+        return call
+
     def block(self, stmts, env):
         for s in stmts:
             self.stmt(s, env)
@@ -306,6 +331,12 @@ class Evaluator:
                 raise PyRaise("ValueError", "unpack")
             for t, v in zip(target.elts, vals):
                 self.assign(t, v, env)
+        elif isinstance(target, ast.Subscript):
+            base = self.ev(target.value, env)
+            if isinstance(base, (list, dict)) and not isinstance(target.slice, ast.Slice):
+                base[self.ev(target.slice, env)] = value       # `items[idx] = ...` on a local list/dict
+            else:
+                raise Unsupported("assignment target")
         else:
             raise Unsupported("assignment target")
 
@@ -356,6 +387,9 @@ class Evaluator:
                     break
                 except _Continue:
                     continue
+        elif isinstance(s, ast.FunctionDef):
+            # a nested helper: a closure over the current environment (read access to the enclosing variables)
+            env[s.name] = self._closure(s, env)
         elif isinstance(s, ast.Break):
             raise _Break()
         elif isinstance(s, ast.Continue):
